@@ -394,7 +394,22 @@ def r16_8(run, model):
                               "so `compiler run main.gom` and `compiler run util.gom` print different numbers")
     n += c17.unique_definition(run, model, "R16.8", "define_inherent_impl", ".methods", "inherent method table",
                                "two files of one package both contain impl P { fn get(self: P) -> int32 }: the later loaded block silently wins")
-    run.floor("writes to the function and method tables examined", n, 2)
+    # an extern declaration enters the same table through register_extern_function
+    f = model.fn("define_extern_go", "crates/compiler/src/typer/toplevel.rs")
+    regs = [c for c in S.walk(f.body) if c["k"] == "MethodCall" and c["method"] == "register_extern_function"]
+    if not regs:
+        raise AnalysisIncomplete("define_extern_go: register_extern_function call not found")
+    guarded = False
+    for iff in S.find(f.body, "If"):
+        ct = S.norm_ws(run.facts.text(f.file, iff["cond"]["sp"]))
+        if re.search(r"\.funcs\.contains_key\(", ct) and not ct.startswith("!") and any(x["k"] == "Return" for x in S.walk(iff["then"])) \
+                and (iff["sp"][0], iff["sp"][1]) < (regs[0]["sp"][0], regs[0]["sp"][1]):
+            guarded = True
+    run.ob("R16.8", "define_extern_go|extern function registration rejects an existing name", guarded, site(f.file, regs[0]["sp"]),
+           "a rejecting contains_key test on the function table precedes register_extern_function" if guarded else "register_extern_function overwrites whatever the table holds",
+           witness="extern \"go\" \"strings\" ref_get(a: string) -> string replaces the builtin's type; the back end still lowers ref_get by name and panics")
+    n += 1
+    run.floor("writes to the function and method tables examined", n, 3)
 
 
 def no_import_skipped(run, model, rule):
